@@ -254,8 +254,11 @@ class MomentVisitor:
         return msgs + self.oracle(run, Snapshot(run.solver), f"after iteration {j}")
 
     def leaf(self, run):
-        if not self.solve_twin:
+        if not self.solve_twin or getattr(self, "horizon_stop", None):
             return []
+        if getattr(self, "new_from", 1) > 1 and len(run.problem.log) > 24 and self.new_from % 8:
+            return []      # long deviation runs: the Solve twin (same answers through Solve) only when the last
+                           # deviation sits at a multiple of 8
         from mc import tree
         n = len(run.problem.log)
         answers = [v for _, v in run.problem.log]
